@@ -23,3 +23,6 @@ def run(repo, rep):
                        'single-line values at width >= L.')
     rep.assumptions = ['integer arithmetic; round() and len() opaque', 'ast parser']
     run_arith(repo, rep, 'C06')
+    # the printers' own forced break for very long sequences is a threshold on the number of elements, nothing else
+    from .c12 import shortcut_counts_elements_only
+    rep.floor('C06.L.e:threshold', shortcut_counts_elements_only(repo, rep, 'C06.L.e'), 1)
